@@ -1,5 +1,7 @@
 """Python twins of spec/FnLib.tla (cross-checked against TLC by ``fnlib_crosscheck``)."""
 
+import numpy as np
+
 
 def one():
     return 1.0
@@ -73,12 +75,16 @@ def cut(a, b):
     return v
 
 
+def cap(a, b):
+    return np.minimum(a, b)
+
+
 def mad(a, b, c):
     return a * b + c
 
 
 ARITY = {"one": 0, "two": 0, "id": 1, "neg": 1, "dbl": 1, "inc": 1, "step": 1, "dsum": 1, "loopinc": 1, "dflt": 1,
-         "add": 2, "sub": 2, "mul": 2, "sel": 2, "cut": 2, "mad": 3}
+         "add": 2, "sub": 2, "mul": 2, "sel": 2, "cut": 2, "cap": 2, "mad": 3}
 FNS = {n: globals()[n] for n in ARITY}
 
 
